@@ -170,14 +170,14 @@ func c18GenCase(r *vc.Rand, idx int, prefix string, onlyCare bool) *atCase {
 		st = atGenInsert(r, t, atStmtOpts{params: params, shuffleCols: r.Bool(), mixedArgs: r.Intn(3) == 0}, 1+r.Intn(4), &seq)
 		st.Feat["where"] = ""
 	case kind < 9:
-		if nul := t.Uniq >= 0 && r.Bool(); nul || r.Intn(3) == 0 {
+		if nul := t.Uniq >= 0 && r.Intn(3) == 0; nul || r.Intn(3) == 0 {
 			// with a secondary unique index: often NULL in its column in the first value group and a collision through
 			// it in the second one
-			st = atGenUpsertMulti(r, t, atStmtOpts{params: params, nullThenUqHit: nul && r.Bool()}, &seq)
+			st = atGenUpsertMulti(r, t, atStmtOpts{params: params, nullThenUqHit: nul}, &seq)
 		} else {
 			// every fourth one also assigns the key columns their inserted values: harmless when the duplicate is on the
 			// primary key, a change of the primary key when the row is found through the secondary unique index
-			st = atGenUpsert(r, t, atStmtOpts{params: params, assignPk: r.Intn(4) == 0}, r.Intn(3) != 0, &seq)
+			st = atGenUpsert(r, t, atStmtOpts{params: params, assignPk: r.Intn(4) == 0 || (t.Uniq >= 0 && r.Bool())}, r.Intn(3) != 0, &seq)
 		}
 		st.Feat["where"] = ""
 	default: // an UPDATE that changes the primary key: must be rejected
@@ -223,7 +223,7 @@ func c18GenCase(r *vc.Rand, idx int, prefix string, onlyCare bool) *atCase {
 func runC18(r *vc.Run, replay string) {
 	r.Rule = "cases = one intercepted statement each: UPDATE / DELETE with WHERE trees (comparison, AND/OR, IN, BETWEEN, parentheses, depth 0-4, optional ORDER BY ... LIMIT) with bound parameters or literals at every position, INSERT with 1-4 rows (literals, parameters, NULL), upsert hit/miss, and primary-key-changing UPDATEs, over int / auto-increment / composite / varchar / 3-column keys, both only-care-update-columns settings; oracle = ground-truth matched/changed rows of the business command in the fake database's journal vs. the images read from the undo_log row with a plain JSON reader: changed rows ⊆ image rows ⊆ matched rows, field values exact, required columns present, pk-changing statements rejected; distinct_nontrivial = distinct feature signatures of cases whose statement changed at least one row and produced an undo log"
 	r.Assumptions = []string{"json serializer without compression (the encoding itself is C08's subject)", "MySQL is harness/minimysql; its record of matched and changed rows is the ground truth"}
-	n := 300
+	n := 1200
 	if r.Tier == "thorough" {
 		n = 5000
 	}
